@@ -302,7 +302,7 @@ func c17Run(in *c17Input) Res {
 	var res Res
 	select {
 	case res = <-done:
-	case <-time.After(20 * time.Second):
+	case <-hangAfter(20 * time.Second):
 		res = Err("hang")
 	}
 	runtime.ReadMemStats(&ms2)
